@@ -275,6 +275,39 @@ fn handle(req: &Value) -> Value {
             }
             json!({"live": live, "ok": outs})
         }
+        "module_seq" => {
+            // first: a main module whose dependency is provided by the host; then an observer script on the SAME interpreter
+            let mut interp = Interpreter::new();
+            let main = req["main"].as_str().unwrap_or("");
+            let dep = req["dep"].as_str().unwrap_or("");
+            let observer = req["observer"].as_str().unwrap_or("");
+            let mut first = Vec::new();
+            let mut r = interp.prepare(main, Some(ModulePath::new("/d/main.ts")));
+            let mut n = 0u64;
+            loop {
+                n += 1;
+                if n > 2_000_000 { first.push(json!("step budget")); break; }
+                match r {
+                    Ok(StepResult::Continue) => { r = interp.step(); }
+                    Ok(StepResult::NeedImports(reqs)) => {
+                        first.push(json!({"need_imports": reqs.iter().map(|x| x.resolved_path.as_str().to_string()).collect::<Vec<String>>()}));
+                        let mut failed = reqs.is_empty();
+                        if first.len() > 20 { failed = true; }
+                        for rq in reqs {
+                            if let Err(e) = interp.provide_module(rq.resolved_path, dep) { first.push(json!({"provide_error": format!("{}", e)})); failed = true; }
+                        }
+                        if failed { break; }
+                        r = interp.step();
+                    }
+                    Ok(StepResult::Complete(v)) => { first.push(json!({"complete": js_to_json(v.value())})); break; }
+                    Ok(_) => { first.push(json!("other")); break; }
+                    Err(e) => { first.push(json!({"error": format!("{}", e)})); break; }
+                }
+            }
+            let obs = run_on(&mut interp, observer, None, 2_000_000);
+            let fresh = run_program(observer, None, 2_000_000);
+            json!({"first": first, "observer": obs, "fresh": fresh})
+        }
         "number_to_string" => {
             let bits = u64::from_str_radix(req["bits"].as_str().unwrap_or("0"), 16).unwrap_or(0);
             json!({"out": tsrun::value::number_to_string(f64::from_bits(bits)).to_string()})
